@@ -1,5 +1,6 @@
 import FormulaicVerif.Proofs.C16Tree
 import FormulaicVerif.Proofs.C16Parse
+import FormulaicVerif.Proofs.C16Total
 import FormulaicVerif.Gen.OperatorTable
 /-! # C16 — Linear-constraint specifications compile to the affine map they express
 
@@ -221,5 +222,53 @@ example : fromSpec id ["a", "b"] (parseString asciiChars) (.str "a + 2*b = 3, a/
   decide +kernel
 example : fromSpec id ["a", "b"] (parseString asciiChars) (.str "-a + b = 3") = .ok ([[-1, 1]], [3]) := by
   decide +kernel
+
+/-- **C16.p4**  (totality of the modelled parser)  For EVERY string the modelled constraint parser
+returns a verdict: a tree in the evaluator's `Node` type, "empty", or an error class. The reading of
+the shunting-yard's tree can never fail, because every tree built over the live constraint table has
+only the operators `, = + - * /` with two arguments and prefix `+ -` with one, and every leaf is a
+name, a number or a Python fragment (`Proofs/C16Total.lean`: a shape invariant of the shunting-yard
+for any table, a `decide`-checked fact about `Gen.constraintTable`, and `tokens_have_kinds`). So the
+default `"unmodelled-shape"` in `parseString` is never used, and `compile_sound_from_string` has no
+hidden escape. -/
+theorem parser_total (chars : String → List FormulaicVerif.Model.CharInfo) (s : String) :
+    (∃ p, FormulaicVerif.Model.ConstraintParse.parse (chars s) = some p ∧ parseString chars s = p) ∧
+    parseString chars s ≠ .error "unmodelled-shape" := by
+  have ht := FormulaicVerif.Proofs.C16Total.parse_total (chars s)
+  cases hp : FormulaicVerif.Model.ConstraintParse.parse (chars s) with
+  | none => rw [hp] at ht; cases ht
+  | some p =>
+    have hps : parseString chars s = p := by simp [parseString, hp]
+    refine ⟨⟨p, rfl, hps⟩, ?_⟩
+    rw [hps]
+    intro hpe
+    subst hpe
+    unfold FormulaicVerif.Model.ConstraintParse.parse at hp
+    cases hg : FormulaicVerif.Model.ConstraintParse.getAst (chars s) with
+    | error e =>
+      obtain ⟨w, hw⟩ := FormulaicVerif.Proofs.C16Parse.getAst_err (chars s) e hg
+      subst hw
+      rw [hg] at hp
+      simp only [Option.some.injEq, Parsed.error.injEq] at hp
+      exact absurd hp (by decide)
+    | ok r =>
+      rw [hg] at hp
+      cases r with
+      | none => simp at hp
+      | some a =>
+        simp only at hp
+        cases hn : FormulaicVerif.Model.ConstraintParse.nodeOfAst a with
+        | none => rw [hn] at hp; simp at hp
+        | some n => rw [hn] at hp; simp at hp
+
+/-- non-vacuity: on the characters of `-a + 2*(b, c) = 3` (nested brackets, a prefix sign, a comma
+inside brackets) the parser returns a tree, and an unbalanced string gets the syntax-error verdict -/
+example : (FormulaicVerif.Model.ConstraintParse.parse (asciiChars "-a + 2*(b, c) = 3")).isSome = true
+    ∧ parseString asciiChars "-a + 2*(b, c) = 3" = .ast (.bin .eq
+        (.bin .add (.un .neg (.leaf .name "a"))
+          (.bin .mul (.leaf .value "2") (.bin .comma (.leaf .name "b") (.leaf .name "c"))))
+        (.leaf .value "3"))
+    ∧ parseString asciiChars "(a + b" = .error "FormulaSyntaxError" :=
+  ⟨by decide +kernel, by rfl, by rfl⟩
 
 end FormulaicVerif.Props.C16
